@@ -274,6 +274,10 @@ class World:
                     del cont[args[0]:args[1]]
                 elif meth == "iadd":
                     cont += [self.pool[a] for a in args[0]]
+                elif meth == "reverse":
+                    cont.reverse()
+                elif meth == "sort":
+                    cont.sort(key=lambda o: self.atom[id(o)])
                 else:
                     raise ValueError(meth)
             elif f == 7:
@@ -289,6 +293,8 @@ class World:
                     cont.setdefault(args[0], self.pool[args[1]])
                 elif meth == "update":
                     cont.update({args[0]: self.pool[args[1]]})
+                elif meth == "update2":
+                    cont.update({args[0]: self.pool[args[1]], args[2]: self.pool[args[3]]})
                 else:
                     raise ValueError(meth)
             else:
@@ -303,7 +309,10 @@ class World:
                 else:
                     raise ValueError(meth)
         elif k == "AddTrait":
-            self.pool[op[1]].add_trait(FN[op[2]], Instance(HasTraits))
+            if op[2] == 13:       # x2 carries the metadata the "tag" filter looks for
+                self.pool[op[1]].add_trait(FN[op[2]], Instance(HasTraits, tag=True))
+            else:
+                self.pool[op[1]].add_trait(FN[op[2]], Instance(HasTraits))
         elif k == "Probe":
             self.counter += 1
             self.pool[op[1]].value = self.counter
